@@ -101,6 +101,11 @@ func chainWorkload(prop string, args []string) int {
 	a := parseArgs("mon09", args, nil)
 	w := vlog.Open(a.Out)
 	for id := a.From; id < a.To; id++ {
+		if prop == "C09" && id%4 == 3 {
+			// every fourth C09 case drives the ledger's own interface with synthetic blocks
+			ledger09Case(w, a, id)
+			continue
+		}
 		chainCase(prop, w, a, id)
 	}
 	w.End()
